@@ -14,6 +14,16 @@ sed -i "s|/repo/|$W/repo/|g" "$W/verif/sim/Cargo.toml"
 cd "$W/verif/sim" && CARGO_NET_OFFLINE=true cargo build --release --offline > "$W/build.log" 2>&1 || { echo "build failed"; tail -20 "$W/build.log"; cd /; git -C /repo worktree remove --force "$W/repo"; rm -rf "$W"; exit 2; }
 if [ -n "$ONE" ]; then (ulimit -v 60000000; VERIF_ROOT="$W/verif" ./target/release/a2lsim one "$PROP" $ONE > "$W/check.log" 2>&1); RC=$?; cat "$W/check.log" | cut -c1-600; else
 (ulimit -v 60000000; VERIF_WATCHDOG_SECS=${VERIF_WATCHDOG_SECS:-300} VERIF_ROOT="$W/verif" ./target/release/a2lsim check "$PROP" "$TIER" > "$W/check.log" 2>&1); RC=$?
+# the process itself died: same procedure as in ./check (single worker with a trace file, then abort-replay)
+case $RC in 0|1|2) ;; *)
+  mkdir -p "$W/verif/replays"
+  (ulimit -v 60000000; VERIF_TRACE_FILE="$W/trace" VERIF_ROOT="$W/verif" ./target/release/a2lsim check "$PROP" "$TIER" > /dev/null 2>&1); RC2=$?
+  case $RC2 in 0|1|2) echo "abnormal end (status $RC) did not repeat with a single worker (status $RC2)";; *)
+    read -r SI RI < "$W/trace"
+    VERIF_ROOT="$W/verif" ./target/release/a2lsim abort-replay "$PROP" "$SI" "$RI" "$TIER" "exit status $RC2" >> "$W/check.log" 2>&1; RC=$?
+    grep -a -A1 '^violation:' "$W/check.log" | tail -2 | cut -c1-260;;
+  esac;;
+esac
 fi
 echo "$(basename "$PATCH") $PROP $TIER exit=$RC $(grep -a -m1 '^violation:' "$W/check.log" | cut -c1-260)"
 grep -a -E "^runs=" "$W/check.log" | cut -c1-120
